@@ -4,7 +4,8 @@ prop("C07", pkg="c07", vlimit_gb=16, fuzz=[("FuzzProtoDecode", 90)],
           "with protowire along the type descriptor): the length prefix replaced by L-1, L+1, 2L+2, 2^24+L, 2^31, 2^63 (and L+1 with the enclosing lengths fixed up), tag / length "
           "/ value varints re-encoded in 10 and 11 bytes, the wire type set to each of the 7 other values, the field number set to 0 and 2^29; 8 single-bit flips; 4 random byte "
           "strings (3 free, 1 after a valid prefix); and, at up to 40 field boundaries (top level and inside embedded messages and map entries) x wire types 0, 1, 2, 5, the "
-          "insertion of one or two well-formed fields whose numbers the message level does not declare (enclosing lengths recomputed). A second sub-check feeds rapid-generated "
+          "insertion of one or two well-formed fields whose numbers the message level does not declare (enclosing lengths recomputed). Encodings longer than 4 KiB (payloads on the 2^14 - thorough also 2^21 - length boundary, up to 4 MiB) get a sampled family: the first and last 48 prefixes, "
+          "the cuts around every field / payload start and 32 more, 6 mutated fields, 8 insertion points, 4 flips; their allocation bound is 64 MiB + 64 x length. A second sub-check feeds rapid-generated "
           "byte strings (0..64 bytes) to generated target types. A third sub-check (LongInputs, 9 cases per shard) decodes long WELL-FORMED inputs - 10^4, 10^5 or 3x10^5 (+0..999) "
           "occurrences of field 1 as repeated varint / uint64 / bool / double / string / bytes / message / pointer-to-message (one tagged value per element: the library has no packed "
           "encoding) or as map<int32,int32> / map<string,string> entries with distinct keys - into the matching target, after a forced GC, and bounds the runtime.MemStats.TotalAlloc "
